@@ -348,6 +348,9 @@ pub const CWDS: &[&str] = &["/w", "/w/x/y", "/home/u/proj"];
 const ENV_DIRS: &[Option<&str>] = &[
     None,
     None,
+    Some(""),
+    Some("."),
+    Some("../sibling-out"),
     Some("out"),
     Some("./out/"),
     Some("a/../out"),
